@@ -116,6 +116,8 @@ type Engine struct {
 	nbase     int
 	iteMerge  bool
 	modLocs   []Loc
+	exit      *State
+	exitVals  []Val
 }
 
 func newEngine(w *World, fn *ssa.Function, c *Contract, mode Mode) *Engine {
